@@ -34,6 +34,8 @@ def simulate(start, outside, ops, paced=True):
     for n, op in enumerate(ops):
         k = op[0]
         where = f"op {n} {op}"
+        if k == "poll":
+            continue
         if k in ("drain", "probe"):
             hotD.clear()
             hotN.clear()
